@@ -80,6 +80,28 @@ def run_unit(A, unit, rep, tier):
                     rep.ok("C06.d", f"C06.d {g.label}: the object is registered for the class-wide flush on every path")
                 else:
                     rep.fail("C06.d", norm_key("C06.d", f.qualname), f"{f.qualname} can complete without registering the object for the class-wide flush: leaving the buffered state would skip it", g.witness(w or []), g.label)
+    # (d') the registry keeps its members alive: the class-wide flush finds its work only through it, so a weak
+    #      mapping silently drops a collection (and its buffered writes) once the user's last handle is gone
+    STRONG = {"collections.OrderedDict", "collections.defaultdict", "builtins.dict", "dict", "OrderedDict", "defaultdict"}
+    for cls in A.concrete():
+        if not A.is_buffered(cls):
+            continue
+        owner, v = A.model.lookup(cls, "_buffered_collections")
+        kind = None
+        if isinstance(v, dict):
+            kind = "dict"
+        elif hasattr(v, "kind") and isinstance(getattr(v, "kind"), str) and v.kind.startswith("ext:"):
+            kind = v.kind[4:]
+        if owner is None:
+            raise AnalysisError(f"anchor: {cls.name} has no registry of buffered collections (_buffered_collections)")
+        if kind == "dict" or kind in STRONG:
+            rep.ok("C06.d", f"C06.d {cls.name}: the registry of buffered collections holds strong references ({kind})")
+        elif kind is not None and "weak" in kind.lower():
+            rep.fail("C06.d", norm_key("C06.d", cls.name, "weak-registry"),
+                     f"{cls.name}: the registry of buffered collections is a {kind}: a collection whose last user handle is dropped inside the buffered context disappears from it and is never flushed (buffered writes lost, entry and size left behind)",
+                     [], cls.name)
+        else:
+            raise AnalysisError(f"anchor: the registry of buffered collections of {cls.name} is of a kind this check does not know ({kind or type(v).__name__}); not decided")
     # (e) serialized strategy: a new entry's reference hash is the hash of exactly the contents stored with it
     for cls in A.concrete():
         if cls.is_subclass_of("SerializedFileBufferedCollection") and not A.is_list(cls) and not cls.is_subclass_of("AttrDict"):
